@@ -83,7 +83,7 @@ def generate(streams: core.Streams, tier: str) -> dict:
         docs.append(gen.gen_filter(w, f"F{i}", target, ls, names))
         kinds.add("filter")
         if gen.chance(f, 0.08):  # a broken filter: its condition names a detection it does not define
-            docs[-1]["filter"]["condition"] = "not undefined_det"
+            docs[-1]["filter"]["condition"] = gen.pick(f, ["not undefined_det", "not undefined-det", "not 1undefined"])
             kinds.add("filter_condition_names_undefined_detection")
     # correlation rules, some malformed
     for i in range(w.choice([0, 0, 1, 1, 2])):
